@@ -578,6 +578,7 @@ func TestC12(t *testing.T) {
 				default:
 					txs = append(burst(u, w, m.prev), burst(u, w, m.prev)...)
 				}
+				txs = dlgrw.FilterTxs(h.Excluded, w, txs)
 				if len(txs) > 1 && u.N(4, "shuffle") == 0 {
 					txs = rapid.Permutation(txs).Draw(rt, "order")
 				}
